@@ -30,7 +30,7 @@ def norm_remote(url: bytes) -> typing.Any:
 def normalize(view: str, entries: typing.List[crawl.Entry], gemlike: bool) -> typing.List[tuple]:
     out = []
     for e in entries:
-        name = e.name
+        name = e.name.replace(b"\t", b" ")      # a Gopher display string cannot carry a TAB (written as a blank)
         if gemlike and view not in GEMLIKE:
             name = gem_name(name)
         if e.local is None:
@@ -274,7 +274,7 @@ def main() -> int:
              "script and a PYG handler. distinct = (kind of case, handler list, abstract setting, entry classes, "
              "size bucket) / (mime, tags) / (target, query class)",
         assumptions=["names compared for Gemini/Spartan after the documented backslashreplace of non-UTF-8 bytes",
-                     "remote targets compared as (host, port, type, selector)",
+                     "remote targets compared as (host, port, type, selector)", "display names compared with TAB read as a blank",
                      "search strings contain no TAB/CR/LF/NUL and no leading/trailing blanks"])
 
 
